@@ -437,13 +437,9 @@ def run(prog, rep):
         # each use guarded by its own `<param> is not None` and not nested under the other parameter's guard
         for u in uses:
             pname = u.value.id
-            guards = []
-            p = u
-            while p is not loop:
-                par = p._parent
-                if isinstance(par, ast.If) and p in par.body:
-                    guards.append(ast.unparse(par.test))
-                p = par
+            # the path condition of the use (either branch of an if, guard clauses, conjunctions), one conjunct per entry
+            _, uconds = _enclosing(u, gc)
+            guards = [ast.unparse(cj) for c_ in uconds for cj in conjuncts(canon(c_))]
             rep.instance('R3', f'{gq}: {norm(u)} guarded by {guards}')
             own = f'{pname} is not None'
             other = 'interface_labels is not None' if pname == 'interface_node_ids' else 'interface_node_ids is not None'
